@@ -130,8 +130,8 @@ impl Property for C20 {
     }
     fn cases(&self, tier: Tier) -> u32 {
         match tier {
-            Tier::Quick => 4000,
-            Tier::Thorough => 50000,
+            Tier::Quick => 40_000,
+            Tier::Thorough => 400_000,
         }
     }
     fn rule(&self) -> String {
